@@ -675,12 +675,146 @@ impl SubCheckT for Counts {
     }
 }
 
+// ---------------------------------------------------------------------------
+// product-form functions over many variables
+// ---------------------------------------------------------------------------
+
+pub struct ProductForm;
+
+fn prod_ff<'a, const P: u128>(lay: &crate::prodform::Layout, reps: &[crate::prodform::BigRep<'a>], case: &crate::prodform::ProdCase) -> CaseResult {
+    let res = |l: usize| -> u128 {
+        let x = splitmix(case.seed ^ 0xFF00 ^ (l as u64).wrapping_mul(0x9E37_79B9_7F4A_7C15));
+        match x % 8 {
+            0 => 0,
+            1 => 1,
+            2 => P - 1,
+            3 => P / 2,
+            _ => (((x as u128) << 64) | splitmix(x) as u128) % P,
+        }
+    };
+    let rw = |l: usize, b: bool| -> u128 {
+        if b {
+            res(l)
+        } else {
+            (P + 1 - res(l)) % P
+        }
+    };
+    let ops = Ops::<u128> { zero: 0, one: 1 % P, add: &|a, b| (a + b) % P, mul: &|a, b| mulmod(*a, *b, P) };
+    let want = lay.expected(case.disj, &rw, &ops, &|x| (P + 1 - *x) % P);
+    let params = params_of(lay.total, &|l, b| FiniteField::<P>::new(rw(l, b)));
+    for r in reps.iter() {
+        let got = match r.ptr {
+            crate::prodform::BigPtr::B(b) => b.unsmoothed_wmc(&params).value(),
+            crate::prodform::BigPtr::S(s) => s.unsmoothed_wmc(&params).value(),
+        };
+        let w = if r.neg { (P + 1 - want) % P } else { want };
+        ensure!(
+            got == w,
+            format!("C07/normalised-count:finite-field({})", P),
+            "{} of a {} of {} blocks over {} labels ({} nodes): count over GF({}) is {}; the product form of the blocks' brute-force counts gives {}",
+            r.name,
+            if case.disj { "disjunction" } else { "conjunction" },
+            lay.blocks.len(),
+            lay.total,
+            r.nodes,
+            P,
+            got,
+            w
+        );
+    }
+    Ok(())
+}
+
+pub fn run_product_form(case: &crate::prodform::ProdCase, st: &mut Stats) -> CaseResult {
+    WMODE.with(|m| m.set((case.seed >> 7) as u8));
+    crate::prodform::with_diagrams(case, st, |lay, reps, st| {
+        // evaluate() against the harness's own reading of the same diagram
+        for a in lay.probes(case.seed ^ 0xE7A1, 32) {
+            for r in reps.iter() {
+                let got = match r.ptr {
+                    crate::prodform::BigPtr::B(b) => b.evaluate(&a),
+                    crate::prodform::BigPtr::S(s) => s.evaluate(&a),
+                };
+                ensure!(
+                    got == r.eval(&a),
+                    "C07/evaluate",
+                    "evaluate() on '{}' ({} labels, {} nodes) = {} but walking the diagram under the same assignment gives {}",
+                    r.name,
+                    lay.total,
+                    r.nodes,
+                    got,
+                    r.eval(&a)
+                );
+            }
+        }
+        prod_ff::<{ primes::U32_SMALL }>(lay, reps, case)?;
+        prod_ff::<{ primes::U64_LARGEST }>(lay, reps, case)?;
+        prod_ff::<{ primes::U128_LARGE_1 }>(lay, reps, case)?;
+        // reals: weights 1/2 (mostly), 0 and 1: every intermediate value is a multiple of 2^-40 in [0, 1], exact in f64
+        let rw = |l: usize, b: bool| -> f64 {
+            let x = splitmix(case.seed ^ 0x4EA1 ^ (l as u64).wrapping_mul(0x9E37_79B9_7F4A_7C15)) % 10;
+            let hi = match x {
+                0 => 0.0,
+                1 => 1.0,
+                _ => 0.5,
+            };
+            if b {
+                hi
+            } else {
+                1.0 - hi
+            }
+        };
+        let fops = Ops::<f64> { zero: 0.0, one: 1.0, add: &|a, b| a + b, mul: &|a, b| a * b };
+        let want = lay.expected(case.disj, &rw, &fops, &|x| 1.0 - *x);
+        let params = params_of(lay.total, &|l, b| RealSemiring(rw(l, b)));
+        for r in reps.iter() {
+            let got = match r.ptr {
+                crate::prodform::BigPtr::B(b) => b.unsmoothed_wmc(&params).0,
+                crate::prodform::BigPtr::S(s) => s.unsmoothed_wmc(&params).0,
+            };
+            let w = if r.neg { 1.0 - want } else { want };
+            ensure!(
+                got == w,
+                "C07/normalised-count:real",
+                "{} of a {} of {} blocks over {} labels ({} nodes): real count is {}; the product form of the blocks' brute-force counts gives {}",
+                r.name,
+                if case.disj { "disjunction" } else { "conjunction" },
+                lay.blocks.len(),
+                lay.total,
+                r.nodes,
+                got,
+                w
+            );
+        }
+        if reps.iter().any(|r| r.nodes >= 32) && lay.blocks.len() >= 3 {
+            st.mark_nontrivial();
+        }
+        Ok(())
+    })
+}
+
+impl SubCheckT for ProductForm {
+    type Case = crate::prodform::ProdCase;
+    const NAME: &'static str = "product_form_many_variables";
+    const RULE: &'static str = "a conjunction or disjunction of 3..8 random blocks of 2..5 variables each over disjoint labels scattered in 20..150 labels, as a BDD (label order with blocks interleaved, or blocks contiguous with unused labels in between, optionally perturbed) and as an SDD (library right-linear / even_split vtree or a random shape), regular and negated; the diagrams are first read back on 48 probe assignments by the harness's own walk (a mismatch is another property's concern and ends the case); then evaluate() must agree with that walk on 32 assignments, and the counts over three finite fields (normalised random residues incl. 0, 1, P-1) and the reals (weights 1/2, 0, 1: exact) must equal the product form of the blocks' brute-force counts. Non-trivial: >=3 blocks and a diagram of >=32 nodes";
+    fn cases(tier: Tier) -> u32 {
+        tier.pick(400, 8000)
+    }
+    fn strategy(_tier: Tier) -> BoxedStrategy<crate::prodform::ProdCase> {
+        crate::prodform::prod_case_strategy()
+    }
+    fn run(case: &crate::prodform::ProdCase, st: &mut Stats) -> CaseResult {
+        run_product_form(case, st)
+    }
+}
+
 pub fn property() -> Property {
     Property {
         id: "C07",
-        subs: vec![sub::<Counts>()],
+        subs: vec![sub::<Counts>(), sub::<ProductForm>()],
         fuzz: vec![],
         assumptions: vec![
+            "truth-table part: functions over <= 7 variables; sub-check product_form_many_variables: 20..150 labels, functions that factor into blocks of <= 5 variables",
             "exactly representable weights (dyadics, small integers, residues) so that every comparison is ==",
             "RationalSemiring weights are naturals built from one()/zero() (private field)",
             "top-down diagrams are counted only when they denote the CNF (that is C06's question)",
